@@ -85,6 +85,7 @@ type streamOpts struct {
 	pesLenModes  bool // unbounded (0) PES_packet_length besides exact
 	minPackets   int
 	uniquePacket bool // make every packet of a PID distinguishable (payload never equal to its predecessor's)
+	teiNoise     bool // noise also includes packets with transport_error_indicator set and a payload (PID 0x1ffc): NextPacket returns them, NextData ignores them
 	emptyInUnit  bool // a PES unit may hold, after its first packet, a packet flagged with payload whose adaptation field leaves no payload byte (counter incremented as for any payload packet)
 	hugePES      bool // now and then a PES unit of 56..64 KiB (the sizes at which a growing buffer reaches a capacity of exactly 65536)
 	zeroPayload  bool // noise also includes packets flagged as carrying a payload whose adaptation field fills them entirely (a unit of zero bytes, on PID 0x1ffd): nothing may come of them
@@ -263,6 +264,9 @@ func drawStream(t *rapid.T, o streamOpts) *streamModel {
 	used := map[uint16]bool{}
 	if o.zeroPayload {
 		used[0x1ffd] = true // kept for the noise packets without payload bytes
+	}
+	if o.teiNoise {
+		used[0x1ffc] = true // kept for the transport-error noise packets
 	}
 	var usedList []uint16
 	drawPID := func(label string) uint16 {
@@ -454,7 +458,12 @@ func drawStream(t *rapid.T, o streamOpts) *streamModel {
 				if o.zeroPayload && gen.Chance(t, 30, "noisezero") {
 					nk = 3
 				}
+				if o.teiNoise && gen.Chance(t, 30, "noisetei") {
+					nk = 4
+				}
 				switch nk {
+				case 4:
+					emit(&streamPacket{p: &ref.TSPacket{PID: 0x1ffc, TEI: true, PUSI: gen.Bool(t, "teipusi"), HasPayload: true, CC: uint8(rapid.IntRange(0, 15).Draw(t, "teicc")), Payload: gen.Bytes(t, 184, "teipayload")}})
 				case 3:
 					zcc = (zcc + 1) & 0xf
 					emit(&streamPacket{p: &ref.TSPacket{PID: 0x1ffd, PUSI: true, HasAF: true, AF: &ref.AF{Stuffing: 182}, HasPayload: true, CC: zcc}})
